@@ -31,28 +31,28 @@ Definition ranges_of (nser : nat) (t : table) : franges :=
 Definition files_obs (nser : nat) (l : list file) : list fobs := map (fun f => (f_seq f, ranges_of nser (f_tab f))) l.
 
 (* code: 1 dump differs, 2 ordered files differ, 3 out-of-order files differ, 4 op parameters not allowed, 5 layout invariant broken *)
-Fixpoint check_from (current : bool) (nser : nat) (i : nat) (L : layout) (h : list (op * obs)) : option (nat * nat) :=
+Fixpoint check_from (wc : bool) (mc : Z) (nser : nat) (i : nat) (L : layout) (h : list (op * obs)) : option (nat * nat) :=
   match h with
   | [] => None
   | (o, ob) :: r =>
       if negb (op_ok L o) then Some (i, 4%nat) else
-      let L' := step current L o in
+      let L' := step2 wc mc L o in
       if negb (layout_ok L') then Some (i, 5%nat) else
       if negb (list_eqb row_eqb (read_all nser L') (o_dump ob)) then Some (i, 1%nat) else
       if negb (list_eqb fobs_eqb (files_obs nser (ord L')) (o_ord ob)) then Some (i, 2%nat) else
       if negb (list_eqb fobs_eqb (files_obs nser (ooo L')) (o_ooo ob)) then Some (i, 3%nat) else
-      check_from current nser (S i) L' r
+      check_from wc mc nser (S i) L' r
   end.
 
-Definition check_case (current : bool) (c : nat * list (op * obs)) : option (nat * nat) :=
-  check_from current (fst c) 0 init (snd c).
+Definition check_case (wc : bool) (mc : Z) (c : nat * list (op * obs)) : option (nat * nat) :=
+  check_from wc mc (fst c) 0 init (snd c).
 
-Fixpoint mismatches_from (current : bool) (k : nat) (cs : list (nat * list (op * obs))) : list (nat * nat * nat) :=
+Fixpoint mismatches_from (wc : bool) (mc : Z) (k : nat) (cs : list (nat * list (op * obs))) : list (nat * nat * nat) :=
   match cs with
   | [] => []
-  | c :: r => match check_case current c with
-              | None => mismatches_from current (S k) r
-              | Some (i, code) => (k, i, code) :: mismatches_from current (S k) r
+  | c :: r => match check_case wc mc c with
+              | None => mismatches_from wc mc (S k) r
+              | Some (i, code) => (k, i, code) :: mismatches_from wc mc (S k) r
               end
   end.
-Definition mismatches (current : bool) := mismatches_from current 0.
+Definition mismatches (wc : bool) (mc : Z) := mismatches_from wc mc 0.
